@@ -53,6 +53,16 @@ func TestWriteCorpus(t *testing.T) {
 	d.Octave, d.Semitone = 700000000000000000, -12*700000000000000000+3
 	write("C04", "huge-octave-cancelled-by-semitone", "octave and semitone huge and cancelling: the pitch is base+3 and has to sound (guards the repair f34b129 against saturating too early)", KeyCase{D: d, Steps: tap(30), NoLogs: true})
 
+	// C13: panic through an action axis while an up/down pair is held
+	d = simple("interrupt")
+	d.Channel = 5
+	d.Actions = []ActionDef{{Code: 59, Action: "channel_up"}, {Code: 60, Action: "channel_down"}, {Code: 61, Action: "panic"}}
+	d.Mappings[0].AnalogSubs = []AnalogSub{{Sub: "", Default: floatp(0)}}
+	d.Mappings[0].Axes = []AxisDef{{Code: c13PanicAxis, Type: "action", Action: strp("panic"), Min: -1, Max: 1}}
+	write("C13", "axis-panic-while-pair-held", "regression: a hat bound to the panic action, pushed while channel_up and channel_down are held, sent nothing (fixed: 9e7bdba)",
+		C13Case{D: d, Steps: []Step{{T: "key", Code: 30, Val: 1}, {T: "key", Code: 59, Val: 1}, {T: "key", Code: 60, Val: 1}, {T: "key", Code: 60, Val: 0}, {T: "key", Code: 59, Val: 0}, {T: "key", Code: 30, Val: 0}},
+			At: 3, Hold: 1, NoLogs: true, ViaAxis: 1})
+
 	// C01: mapping switched while a key-emulating axis is deflected
 	d = simple("off")
 	d.Actions = []ActionDef{{Code: 59, Action: "mapping_up"}}
